@@ -25,7 +25,7 @@ def matrixrep_event(eid, u, seed):
     import kdriver as K
     from kingdon import MultiVector
     rng = random.Random(seed)
-    ev = {'id': eid, 'kind': 'matrixrep', 'u': u, 'raised': '', 'blades': [], 'samples': []}
+    ev = {'id': eid, 'kind': 'matrixrep', 'u': u, 'raised': '', 'blades': [], 'samples': [], 'pairs': []}
     try:
         alg = K.make_algebra(u)
         for name, B in alg.canon2bin.items():
@@ -40,6 +40,29 @@ def matrixrep_event(eid, u, seed):
             back = MultiVector.frommatrix(alg, M)
             ev['samples'].append({'keys': [int(k) for k in keys], 'coefs': coefs, 'triples': triples(M),
                                   'back': {'keys': [int(k) for k in back.keys()], 'coefs': [int(v) for v in back.values()]}})
+        # the homomorphism clause on the library's own matrices, python-int coefficients of several magnitudes
+        for _ in range(3):
+            mag = rng.choice([3, 40, 40, 300])
+            kx = rng.sample(range(n), rng.randint(1, min(n, 3)))
+            ky = rng.sample(range(n), rng.randint(1, min(n, 3)))
+            cx = [rng.choice([-1, 1]) * rng.randint(max(1, mag // 3), mag) for _ in kx]
+            cy = [rng.choice([-1, 1]) * rng.randint(max(1, mag // 3), mag) for _ in ky]
+            pr = {'x': {'keys': [int(k) for k in kx], 'coefs': cx}, 'y': {'keys': [int(k) for k in ky], 'coefs': cy}, 'raised': '', 'matmul': [], 'ofprod': []}
+            try:
+                x = MultiVector.fromkeysvalues(alg, tuple(kx), cx)
+                y = MultiVector.fromkeysvalues(alg, tuple(ky), cy)
+                pr['matmul'] = triples(x.asmatrix() @ y.asmatrix())
+                Mp = (x * y).asmatrix()
+                import numpy as _np
+                if _np.ndim(Mp) != 2:       # e.g. the number 0 for the zero multivector: not a matrix
+                    pr['raised'] = f'asmatrix_returned_{type(Mp).__name__}_instead_of_a_matrix'
+                else:
+                    pr['ofprod'] = triples(Mp)
+            except ValueError:
+                raise
+            except Exception as e:   # noqa: BLE001
+                pr['raised'] = type(e).__name__
+            ev['pairs'].append(pr)
     except Exception as e:   # noqa: BLE001
         ev['raised'] = type(e).__name__
     return ev
